@@ -5,7 +5,7 @@ T = "GeomV.C12."
 CFG = {
     "id": "C12",
     "lean_modules": ["GeomV.C12.Proofs", "GeomV.C12.ProofsExt", "GeomV.C12.Negations", "GeomV.C12.ProofsFloat",
-                     "GeomV.C12.ProofsFloatTree", "GeomV.C12.ProofsRne", "GeomV.C12.NegationsFloat", "GeomV.C12.ProofsFloatKnn"] + c11_tie.C12_TIES,
+                     "GeomV.C12.ProofsFloatTree", "GeomV.C12.ProofsRne", "GeomV.C12.NegationsFloat", "GeomV.C12.ProofsFloatKnn", "GeomV.C12.ProofsSort"] + c11_tie.C12_TIES,
     "lean_dirs": ["C11", "C12"],
     "exe": "geomv_c12",
     "go_cmd": "c12",
@@ -31,6 +31,8 @@ CFG = {
         # gnnNode on a one-slot array; for every monotone rounding / float64 rne: specKNNBy with the ROUNDED distance as key
         "gknnNode_exact", "gknnNode_spec", "gknn1_eq", "C12_knn_float", "C12_knn_float_anyfl", "C12_knn_float_id", "C12_knn_rne",
         "specKNN_eq_by",
+        # phase 4 (ProofsSort): the Swap program of Go's insertionSort induces exactly the executable model's visiting order
+        "C12_insertionSwaps_stable",
         # the cancellation defect (S - d1*d1 + d2*d2) as a kernel-evaluated negation on a two-binade floating format
         "Rounding.fl2", "C12_old_cancellation_unsound",
         # T1: minDist / minMaxDist regenerated from index/rtree/geom.go of the tree under test = the model's
